@@ -139,6 +139,7 @@ type State struct {
 	dead   bool
 	knownTags map[string]int
 	storageFault bool
+	lastCrash map[string]string
 }
 
 type recorder struct {
@@ -146,13 +147,14 @@ type recorder struct {
 	whole  map[string]bool
 	sorts  map[string]Sort
 	cells  map[int]bool
+	allocs map[string]bool // references allocated while recording
 	all    bool
 	startFresh int
 	parent *recorder
 }
 
 func newRecorder(start int, parent *recorder) *recorder {
-	return &recorder{keys: map[string][]Term{}, whole: map[string]bool{}, sorts: map[string]Sort{}, cells: map[int]bool{}, startFresh: start, parent: parent}
+	return &recorder{keys: map[string][]Term{}, whole: map[string]bool{}, sorts: map[string]Sort{}, allocs: map[string]bool{}, cells: map[int]bool{}, startFresh: start, parent: parent}
 }
 
 func (st *State) clone() *State {
@@ -173,6 +175,10 @@ func (st *State) clone() *State {
 	}
 	for k, v := range st.knownTags {
 		n.knownTags[k] = v
+	}
+	n.lastCrash = make(map[string]string, len(st.lastCrash))
+	for k, v := range st.lastCrash {
+		n.lastCrash[k] = v
 	}
 	for k, v := range st.pcSet {
 		n.pcSet[k] = v
@@ -280,6 +286,9 @@ func (x *exec) allocRef(st *State) Term {
 	nw := x.ctx.fresh("W", SInt)
 	st.assume(Eq(nw, st.W))
 	st.W = nw
+	for r := st.rec; r != nil; r = r.parent {
+		r.allocs[nw.S] = true
+	}
 	return nw
 }
 
